@@ -5,9 +5,21 @@ import os
 
 HERE = os.path.dirname(os.path.dirname(os.path.abspath(__file__)))
 
-HOOK_COMMITS = ["6e1d5dd", "092527b", "70942f2", "7e1ebbc"]
+HOOK_COMMITS = ["6e1d5dd", "092527b", "70942f2", "7e1ebbc", "243e756"]
 
 CHECKS = {
+    "C17": dict(
+        text="Partial: decides hop bookkeeping, trivial-crossing permutation, frustrated hop = no change, per-trajectory isolation, probability bounds, exact energy conservation and smaller-root choice; norm preservation only for zero coupling. TLC checks FSSH (two trajectories, three states; per step and trajectory a TLC-chosen trivial-crossing permutation, hop target and kinematics with exact rational velocity rescaling): SwapIsPermutation, FrustratedNoChange, EnergyExact, SmallerRoot, HoldoffBlocksHop, Isolation, PotentialTracksActive, decoherence on/off; sgn(0)=0 and swap-applied-to-all mutants are refuted. Thousands of exported behaviours are replayed on the real SurfaceHoppingDynamics._after_electronic_update / _attempt_hop / _rescale_velocity_along_nac (dummy dynamics objects as in the repository's tests; random draw, crossing mask, coupling vector and gap are the behaviour's inputs): active state, amplitude slots, hold-off, previous state, velocities (exact rationals, 1e-12), potential, hop log must equal the model's. _attempt_hop alone is driven over a dyadic grid.",
+        note="Not decided: RK4 norm preservation for non-zero coupling. One atom per trajectory, masses {1,2}, integer vectors, at most one accepted stochastic hop per trajectory; the hold-off tick of _do_integrator_step is performed by the driver; for v.d = 0 either root is accepted.",
+        tech="explicit TLA+ model (FSSH) with exact rational kinematics checked by TLC; exported behaviours replayed on the real hop bookkeeping",
+        ref="DESIGN.md §4 C17",
+    ),
+    "C20": dict(
+        text="TLC checks Optimizer (loop control of Geometry_Optimization_SD on exact quadratic wells with alpha k = 1/2, batches with different start displacements): StopsAtFirstOk, EvalBound, CapReported, ConvergedReported, ReturnFromLastEvaluation, Descent, PrefixIndependent, liveness Terminates; '< tol' and wrong-sign mutants are refuted. Every exported behaviour (start displacements x tolerance x cap) is replayed on the real optimiser with a stub ES implementing the same wells: number of evaluations, per-iteration max force and energies, stop iteration, report line, returned residual force and energy change, final coordinates, immobile padding atom equal the model's. Real PES monitored: energies descend while alpha|F|^2 > 100 scf_eps, padding never moves, path of a molecule in a batch equals its solo path per iteration.",
+        note="First convergence exactly at the evaluation cap is excluded from the report verdict (statement ambiguous; the code reports 'not converged').",
+        tech="explicit TLA+ model (Optimizer) with exact arithmetic checked by TLC; every exported behaviour replayed on the real optimiser",
+        ref="DESIGN.md §4 C20",
+    ),
     "C05": dict(
         text="TLC evaluates the Batch specification (Parser index maps and the padded-orbital pack map transcribed with exact integer arithmetic) on every batch of an enumerated lattice: the index structure of a molecule in any batch is its solo structure shifted (Transparent), row reversal and extra padding columns only re-base it (PermInvariant, PadInvariant), pack is a bijection on physical orbitals. Every exported batch is run through the real Parser with three padding-coordinate conventions and every index tensor compared exactly; pack/unpack are decoded on self-describing matrices against the spec's map (single, homogeneous and mixed batch paths). Value transparency (molecule in batch vs alone; row orders, extra padding, padding coordinates, five solver configurations) and exactly-zero padding forces are monitored with stated tolerances; per-molecule convergence masks are C03's Frozen/NoReactivation.",
         note="Index lattice: <=2 (thorough 3) rows, <=3 atoms, species {H,(C),O}; value layouts are a sample drawn by VERIF_SEED; tolerances 1e-7 (energy-like) / 1e-6 (force-like) at scf_eps 1e-10, observed deviations <=1e-3 of them. Same-element relabelling and MD trajectory independence are covered only indirectly.",
